@@ -189,6 +189,7 @@ class SeqOf(PSpec):
             items = [self.elem(ex, st, f"{name}[{i}]", z3.IntVal(i)) for i in range(self.concrete_len)]
             return ex.alloc(st, ListObj(L.LT.of(items)))
         n = ex.fresh(name + ".len", z3.IntSort())
+        ex.len_symbols.append(n)
         st.assume(n >= self.min_len)
         if self.max_len is not None:
             st.assume(n <= self.max_len)
@@ -240,6 +241,7 @@ class DictOf(PSpec):
 
     def make(self, ex, st, name):
         n = ex.fresh(name + ".len", z3.IntSort())
+        ex.len_symbols.append(n)
         st.assume(n >= 0)
         i = ex.fresh_const(name + ".i", z3.IntSort())
         k, v = generic_element(ex, st, i, n, lambda: (self.key(ex, st, f"{name}.key", i),
@@ -296,6 +298,14 @@ def to_native(ex, st: State, model: z3.ModelRef, v):
         if isinstance(o, ListObj):
             if o.lt.is_concrete():
                 return [to_native(ex, st, model, x) for x in o.lt.concrete_items()]
+            segs = o.lt.segs
+            if len(segs) == 1 and isinstance(segs[0], L.MapSeg) and segs[0].body.is_concrete() \
+                    and len(segs[0].body.segs) == 1:
+                seg = segs[0]
+                n = model.eval(seg.n, model_completion=True).as_long()
+                if 0 <= n <= 12:
+                    return [to_native(ex, st, model, ex.subst(st, seg.body.segs[0].v, seg.ivar, z3.IntVal(k)))
+                            for k in range(n)]
             return None
         if isinstance(o, DictObj):
             return {to_native(ex, st, model, k): to_native(ex, st, model, x) for k, x in o.entries}
@@ -351,6 +361,8 @@ class Contract:
         self.loops: Dict[int, Any] = getattr(cls, "loops", {})
         self.ghost_out: Sequence[str] = getattr(cls, "ghost_out", ())
         self.clause_props: Dict[str, Sequence[str]] = getattr(cls, "clause_props", {})
+        self.never_raises: Sequence[str] = getattr(cls, "never_raises", ())
+        self.ghost_specs: Dict[str, Callable] = getattr(cls, "ghost_specs", {})
 
     def clauses_for(self, prop: Optional[str]) -> Optional[List[str]]:
         """names of the clauses that serve property `prop` (None = all); a clause without an entry in `clause_props`
@@ -386,6 +398,9 @@ class Contract:
             return [err]
         bound = dict(fr.locals)
         st.log.append(("call", self.target, dict(bound)))
+        for k, v in bound.items():
+            st.ghost[f"{self.name}_{k}"] = v  # ghost record of the (last) call: visible to clauses as ghost_<Name>_<arg>
+        st.ghost[f"{self.name}_calls"] = st.ghost.get(f"{self.name}_calls", 0) + 1
         ex.modular_calls.add(self.target) if hasattr(ex, "modular_calls") else None
         if self.has_pre:
             for s, v in self.call_clause(ex, st.fork(), "pre", bound):
@@ -394,10 +409,15 @@ class Contract:
                 ex.side_obligations.append((f"callsite/{self.target.split(':')[-1]}/pre", list(s.pc),
                                             ex.truth(s, v), f"precondition of {self.target} at a call site"))
         if self.hook is not None:
-            return self.hook(ex, st, bound)
-        if self.has_model:
-            return self.call_clause(ex, st, "model", bound)
-        return self.apply_relational(ex, st, bound)
+            rs = self.hook(ex, st, bound)
+        elif self.has_model:
+            rs = self.call_clause(ex, st, "model", bound)
+        else:
+            rs = self.apply_relational(ex, st, bound)
+        for s, v in rs:
+            if not isinstance(v, Exc):
+                s.ghost[f"{self.name}_result"] = v
+        return rs
 
     def clause_formula(self, ex, st: State, clause: str, env: Dict[str, Any]) -> z3.BoolRef:
         """truth of a (pure) clause in state `st` as ONE formula: the disjunction over the clause's own paths of
@@ -451,10 +471,12 @@ class Contract:
             res = self.returns.make(ex, s, "ret_" + self.name)
             for g in self.ghost_out:
                 s.ghost[g] = res  # ghost variables the callee establishes (e.g. the root the fold produced)
+            for g, mk in self.ghost_specs.items():
+                s.ghost[g] = mk().make(ex, s, "ghost_" + g)  # the callee's own ghost: some value of this shape
             env = dict(bound)
             env["result"] = res
             for gk, gv in s.ghost.items():
-                if isinstance(gk, str):
+                if isinstance(gk, str) and not isinstance(gv, (int, list, dict)):
                     env["ghost_" + gk] = gv
             for p in self.posts:
                 s.assume(self.clause_formula(ex, s, p, env))
